@@ -31,7 +31,8 @@ type c19Scenario struct {
 
 var c19Success = []string{"ok-plain", "ok-empty", "ok-whitespace", "ok-big", "ok-nonnumeric", "ok-float"}
 var c19Failure = []string{"exit-code", "exit-code-output", "exit-code-stderr", "self-kill", "not-executable", "bad-format", "dangling-interpreter",
-	"vanishing", "sleep-past-deadline", "ignore-sigterm", "grandchild-holds-stdout", "grandchild-and-parent-sleep", "print-then-sleep", "missing-file"}
+	"vanishing", "sleep-past-deadline", "ignore-sigterm", "grandchild-holds-stdout", "grandchild-and-parent-sleep", "print-then-sleep", "missing-file",
+	"path-through-regular-file", "symlink-loop", "name-too-long", "no-shebang-sleeps", "no-shebang-quick", "directory"}
 
 func genC19(t *rapid.T) c19Scenario {
 	sc := c19Scenario{TimeoutMs: rapid.SampledFrom([]int{200, 500, 1000, 2000}).Draw(t, "timeoutMs")}
@@ -93,6 +94,24 @@ func c19Script(dir string, sc c19Scenario) (path string, raw string, success boo
 		body += "echo 42\n"
 	case "missing-file":
 		return filepath.Join(dir, "does-not-exist.sh"), "", false
+	case "path-through-regular-file":
+		_ = os.WriteFile(filepath.Join(dir, "plainfile"), []byte("x"), 0o644)
+		return filepath.Join(dir, "plainfile", "cmd.sh"), "", false
+	case "symlink-loop":
+		_ = os.Remove(filepath.Join(dir, "loopA"))
+		_ = os.Remove(filepath.Join(dir, "loopB"))
+		_ = os.Symlink(filepath.Join(dir, "loopB"), filepath.Join(dir, "loopA"))
+		_ = os.Symlink(filepath.Join(dir, "loopA"), filepath.Join(dir, "loopB"))
+		return filepath.Join(dir, "loopA"), "", false
+	case "name-too-long":
+		return filepath.Join(dir, strings.Repeat("x", 300)), "", false
+	case "directory":
+		_ = os.MkdirAll(filepath.Join(dir, "adir"), 0o755)
+		return filepath.Join(dir, "adir"), "", false
+	case "no-shebang-sleeps":
+		body = "sleep " + long + "\necho 42\n" // a text file without interpreter line: ENOEXEC
+	case "no-shebang-quick":
+		body = "echo 42\n"
 	case "sleep-past-deadline":
 		body += "sleep " + long + "\n"
 	case "ignore-sigterm":
